@@ -22,7 +22,10 @@ import (
 var c19E2EOwn = []string{"Name string", "ID int", "Σ string", "name string", "status string"}
 var c19E2EDeep = []string{"Owner Own", "Tag string"}
 var c19E2ETop = []string{"Name string", "name string", "NAME string", "FirstName string", "Names string", "ID int", "IDs []int",
-	"Straße string", "STRASSE string", "Σας string", "ΣΑΣ string", "K string", "Kk int", "Nameſ string", "street string", "town string", "data string", "Owner Own", "Deep Dp"}
+	"Straße string", "STRASSE string", "Σας string", "ΣΑΣ string", "K string", "Kk int", "Nameſ string", "street string", "town string", "data string", "Owner Own", "Deep Dp", "Base"}
+
+// an EMBEDDED struct: the paths of its members carry the embedded type's name
+var c19E2EBase = []string{"ID int", "Note string"}
 
 func c19E2ENames(fields []string) []string {
 	var out []string
@@ -42,6 +45,12 @@ func c19E2EPaths() (all, leaves []string) {
 			for _, o := range own {
 				all = append(all, "Owner."+o)
 				leaves = append(leaves, "Owner."+o)
+			}
+		case "Base":
+			all = append(all, n)
+			for _, o := range c19E2ENames(c19E2EBase) {
+				all = append(all, "Base."+o)
+				leaves = append(leaves, "Base."+o)
 			}
 		case "Deep":
 			all = append(all, "Deep", "Deep.Owner", "Deep.Tag")
@@ -98,6 +107,8 @@ var c19E2EFixed = []c19E2EPat{
 	{`/^[\pL&&]+$/`, "class-literal"}, {`/^[\p{Lu}\p{Ll}]+$/`, "class-unicode"}, {`/^[^\P{Lu}]/`, "class-double-negation"}, {`/\AName\z/`, "text-anchors"},
 	// unexported members whose first letters occur in the destination variable's name ("dst")
 	{`street`, "plain-unexported"}, {`reet`, "plain-unexported"}, {`/^to/`, "anchor-left-unexported"}, {`/^own$/`, "anchored-unexported"}, {`Owner.status`, "plain-unexported"}, {`/^Owner\.atus$/`, "anchored-unexported"}, {`data`, "plain-unexported"}, {`/^ata$/`, "anchored-unexported"},
+	// members of an embedded struct
+	{`Base.ID`, "plain-embedded"}, {`Base.Note`, "plain-embedded"}, {`Note`, "plain-embedded-promoted-name"}, {`/^Note$/`, "anchored-embedded-promoted-name"}, {`/^Base\.Note$/`, "anchored-embedded"}, {`/^ID$/`, "anchored-embedded-shadowed"}, {`/Note$/`, "anchor-right-embedded"}, {`Base`, "plain-embedded-struct"},
 	// the /regexp/ form itself
 	{`/`, "form"}, {`/Name`, "form"}, {`Name/`, "form"}, {`/Owner/Name/`, "form"}, {`Owner.Name`, "plain"}, {`owner.name`, "plain"}, {`OWNER.NAME`, "plain"},
 	{`Owner`, "plain-struct"}, {`owner`, "plain-struct"}, {`Deep.Owner`, "plain-struct"}, {`Deep.Owner.Σ`, "plain"}, {`deep.owner.σ`, "plain"}, {`deep.owner.ς`, "plain"},
@@ -189,6 +200,7 @@ func c19RunE2E(e *core.Env, rep *core.Report, n int) {
 	variants := []variant{{"On", true}, {"OffBefore", false}, {"OffAfter", false}}
 	for i, p := range pats {
 		b := scen.NewBuilder(nil, scen.Profile{}, fmt.Sprintf("t%04d", i), fmt.Sprintf("c19t%04d", i))
+		b.Struct("", "Base", c19E2EBase...)
 		b.Struct("", "Own", c19E2EOwn...)
 		b.Struct("", "Dp", c19E2EDeep...)
 		b.Struct("", "A", c19E2ETop...)
